@@ -68,7 +68,7 @@ var selTable = map[string]map[string]string{
 		"Stat": "Stat", "Getenv": "Getenv", "LookupEnv": "LookupEnv", "Exit": "Exit", "Getpid": "Getpid",
 		"Args": "!call:Args", "Stderr": "Stderr", "File": "File",
 		"Rename": "Rename", "Remove": "Remove", "RemoveAll": "RemoveAll", "MkdirAll": "MkdirAll", "Mkdir": "Mkdir",
-		"Truncate": "Truncate", "Chmod": "Chmod", "CreateTemp": "CreateTemp",
+		"Truncate": "Truncate", "Chmod": "Chmod", "CreateTemp": "CreateTemp", "TempDir": "TempDir", "Lstat": "Lstat",
 	},
 	"os/signal": {"Notify": "Notify"},
 	"os/exec":   {"Command": "Command"},
